@@ -413,7 +413,9 @@ def known_class(case, failure, pdf):
     if op in ("min", "max") and axis0:
         if has_nullable and not is_df and k.get("skipna") is False and failure == "dask-raises:TypeError":
             return "nullable-skipna-false"
-        if empty and failure in ("wrong-dtype", "dask-raises:TypeError"):
+        if failure == "wrong-dtype" and (empty or _has_allna_partition(pdf, cols, parts)):
+            return "empty-or-all-na-partition"  # a partition without any valid value contributes NaN
+        if empty and failure == "dask-raises:TypeError":
             return "empty-partition"
         if empty and failure == "wrong-value" and k.get("skipna") is False:
             return "skipna-false-empty-partition"
